@@ -149,7 +149,7 @@ def data_model_file(tilt=True, masses=True, comment=True, natoms=True, bounds=('
         L.append(Line([]))
     if atoms:
         t['atoms_line'] = len(L)
-        L.append(Line(['Atoms'], comment=['charge'] if comment else None))
+        L.append(Line(['Atoms'], comment=(['charge'] if comment is True else list(comment)) if comment else None))
         L.append(Line([]))
         for i in (3, 1, 2):
             L.append(Line([sp.Integer(i), sp.Integer(1), _sym('q%d' % i), _sym('x%d' % i), _sym('y%d' % i), _sym('z%d' % i), sp.Integer(0), sp.Integer(1), sp.Integer(-1)][:ncols]))
@@ -195,7 +195,8 @@ def data_read(ctx):
         return paths, rec
     L_ = UnitKey('UQ', 'length').sym
     # --- complete files
-    for tag, kw in (('tilted, masses, style comment, velocities, image flags', {}), ('orthogonal, no masses, no comment, no velocities', dict(tilt=False, masses=False, comment=False, velocities=False, ncols=6))):
+    for tag, kw in (('tilted, masses, style comment, velocities, image flags', {}), ('orthogonal, no masses, no comment, no velocities', dict(tilt=False, masses=False, comment=False, velocities=False, ncols=6)),
+                    ('tilted, a style comment of several words (hybrid styles are written as "Atoms # hybrid charge")', dict(comment=('hybrid', 'charge')))):
         lines, t = data_model_file(**kw)
         try:
             paths, rec = run_firstpass(lines)
@@ -226,7 +227,7 @@ def data_read(ctx):
         okm = (m == t['masses']) if 'masses' in t else (m is None)
         ctx.ob('DATA-READ', loc, '%s: masses are assigned by type number, not by line order' % tag if 'masses' in t else '%s: no Masses section -> no masses' % tag, okm, str(m), node=fp, key=tag + ' masses')
         wantp = {'atomsstart': t['atoms_line'] + 1, 'velocitiesstart': (t['vel_line'] + 1) if 'vel_line' in t else None, 'atomscolumns': kw.get('ncols', 9),
-                 'atom_style': 'charge' if kw.get('comment', True) else None}
+                 'atom_style': ('charge' if kw.get('comment', True) is True else ' '.join(kw['comment'])) if kw.get('comment', True) else None}
         okp = isinstance(params, dict) and all(params.get(k) == v for k, v in wantp.items())
         ctx.ob('DATA-READ', loc, '%s: tables start on the line after their section header; column count from the first atom line; style from the header comment' % tag, okp,
                'got %s expected %s' % ({k: params.get(k) for k in wantp} if isinstance(params, dict) else params, wantp), node=fp, key=tag + ' params')
